@@ -124,6 +124,27 @@ def parseNT (s : String) : Option NT :=
 def hexNames (s : String) : Option (List Str) :=
   if s == "-" then some [] else (s.splitOn ",").mapM hexStr
 
+
+def parseImpFmt : String → Option ImpFmt
+  | "text" => some .text | "fp32" => some .fp32 | "fp64" => some .fp64 | "in32" => some .in32
+  | "in16" => some .in16 | "in08" => some .in08 | "hdf" => some .hdf | _ => none
+
+/-- `-` no option, `n` = `-n`, `t<TYPE>` = `-t <TYPE>` -/
+def parseImpOpt : String → Option (Option ImpOut)
+  | "-" => some none | "n" => some (some .fp64) | "tFP32" => some (some .fp32) | "tFP64" => some (some .fp64)
+  | "tINT32" => some (some .int32) | "tINT16" => some (some .int16) | "tINT8" => some (some .int8) | _ => none
+
+def parseImpFile (s : String) : Option ImpFile :=
+  match s.splitOn "/" with
+  | [f, o, np, nr, nc] =>
+    match parseImpFmt f, parseImpOpt o, np.toInt?, nr.toInt?, nc.toInt? with
+    | some f, some o, some np, some nr, some nc => some { fmt := f, opt := o, np := np, nr := nr, nc := nc }
+    | _, _, _, _, _ => none
+  | _ => none
+
+def showImpOut : ImpOut → String
+  | .fp32 => "f32" | .fp64 => "f64" | .int32 => "i32" | .int16 => "i16" | .int8 => "i8"
+
 /-- engine `tools` -/
 def stepTools (args : List String) : String :=
   match args with
@@ -156,6 +177,15 @@ def stepTools (args : List String) : String :=
       | some d => showIntList d
       | none => "fail"
     | _, _, _ => "bad-op"
+  | ["import_run", tf, files] =>
+    match tf.toNat?, (files.splitOn ",").mapM parseImpFile with
+    | some tf, some fs =>
+      match importRun {} fs with
+      | none => "fail"
+      | some rs =>
+        if tf = 0 ∨ rs.isEmpty then "ok -"
+        else "ok " ++ " ".intercalate (rs.map fun r => s!"{showImpOut r.ty}:{"x".intercalate (r.shape.map toString)}")
+    | _, _ => "bad-op"
   | ["dumpcell", dims, k] =>
     match natList dims, k.toNat? with
     | some d, some k => match (dumpIndices d)[k]? with
